@@ -141,7 +141,7 @@ pub fn c13_sources(ctx: &Ctx, subj: &dyn DynSubject, ty: &Ty, entry: &SeqEntry, 
             Ok(Err(e)) => return Err(Fail::new("seq-ser-error", format!("serializing slice/iterator variants failed: {}", e))),
             Ok(Ok(s)) => s,
         };
-        let enc = model_enc(ctx, subj, ty, v)?;
+        let enc = model_enc_fit(ctx, subj, ty, v, st.slice.len(), log)?;
         let has_mask = enc.mask.iter().any(|m| !*m);
         log.nontrivial = true;
         log.classes.push("borrowed-source".into());
